@@ -138,14 +138,20 @@ PROPERTIES["C04"] = {
     "level_note": "Bounds as in the reused harnesses (C05/C06/C07/C15/C16/C17/C19). Byte-level parsing (JSON/YAML/CUE libraries), the CUE front end and text/template "
                   "execution are outside the claim: cog code only sees decoded structs, which is what is made symbolic.",
     "bounds": {"inputs": "same symbolic inputs as C05, C06, C07, C19 harnesses, panics judged instead of assertions", "recursion": "150 frames", "steps": "2e6 per path"},
-    "runs": [Run("chains", ["./internal/zzverif/hchains"], CHAINS_HARNESS,
+    "runs": lambda ctx: [
+             Run("chains", ["./internal/zzverif/hchains"], CHAINS_HARNESS,
                  ["VerifC06Go", "VerifC06Java", "VerifC06PHP", "VerifC06Python", "VerifC06TypeScript", "VerifC06GoSpine", "VerifC06JavaSpine", "VerifC06PHPSpine", "VerifC06PythonSpine"],
                  "internal/zzverif/hchains", test_pkg_name="hchains", needs_leaf=True, panics="violation", judge="panic"),
              Run("compiler", ["./internal/ast/compiler"], COMPILER_HARNESS,
                  ["VerifC07UserPasses", "VerifC05Rename", "VerifC05Prefix", "VerifC05Duplicate", "VerifC05Unspec", "VerifC05ReplaceReference", "VerifC05AllowedObjects"],
                  "internal/ast/compiler", needs_leaf=True, panics="violation", judge="panic"),
              Run("orderedmap", ["./internal/orderedmap"], {"internal/orderedmap/zz_verif_c19.go": "harness/orderedmap/zz_verif_c19.go"},
-                 ["VerifC19Step", "VerifC19History"], "internal/orderedmap", panics="violation", judge="panic")],
+                 ["VerifC19Step", "VerifC19History"], "internal/orderedmap", panics="violation", judge="panic"),
+             Run("jsonschema_jenny", ["./internal/jennies/jsonschema"], _h(("internal/jennies/jsonschema/zz_verif_c12.go", "harness/jjsonschema/zz_verif_c12.go")),
+                 ["VerifC12GenerateSchema"], "internal/jennies/jsonschema", test_pkg_name="jsonschema", needs_leaf=True, panics="violation", judge="panic"),
+             Run("hast", ["./internal/zzverif/hast"], HAST_HARNESS, ["VerifC16FromAST"], "internal/zzverif/hast", test_pkg_name="hast", panics="violation", judge="panic"),
+             Run("veneers", ["./internal/zzverif/hveneers"], VENEERS_HARNESS, ["VerifC17OptionRule", "VerifC17BuilderRule"],
+                 "internal/zzverif/hveneers", test_pkg_name="hveneers", needs_leaf=True, panics="violation", judge="panic")],
 }
 
 
